@@ -39,6 +39,10 @@ func c15Docs() []c15Doc {
 		{"async-long-string", []byte(`["` + strings.Repeat("a", 20000) + `","b"]`)},
 		{"nd-ok", []byte("{\"a\":1}\n[true,false]\n{\"b\":{\"c\":\"d\"}}")},
 		{"nd-bad", []byte("{\"a\":1}\n[true,\n{}")},
+		// below the threshold but several index buffers, rejected by stage 2 while the first
+		// buffer is being consumed: the later buffers are still queued when the call fails
+		{"dense-small-stage2-error-early", []byte("[1,,1," + strings.Repeat("1,", 1900) + "1]")},
+		{"dense-small-ok", []byte("[" + strings.Repeat("1,", 1900) + "1]")},
 	}
 }
 
@@ -181,8 +185,20 @@ func editCur(cur *simdjson.ParsedJson, which int) {
 
 // run executes one history on one reused object; returns the first call whose outcome
 // differs from the same call on fresh objects.
-func (c *c15ctx) run(hist []c15Op) (what, fp string) {
+//
+// byValue: the caller keeps its ParsedJson by value (keep := *result; Parse(b, &keep)), as
+// long-lived structs embedding a ParsedJson do. Unlike the pointer a call returned, such a
+// copy keeps the parser state attached across a failed call.
+func (c *c15ctx) run(hist []c15Op, byValue bool) (what, fp string) {
 	var cur *simdjson.ParsedJson
+	keepResult := func(pj *simdjson.ParsedJson) {
+		if byValue {
+			k := *pj
+			cur = &k
+		} else {
+			cur = pj
+		}
+	}
 	ser := simdjson.NewSerializer()
 	for i, o := range hist {
 		switch o.Kind {
@@ -220,7 +236,7 @@ func (c *c15ctx) run(hist []c15Op) (what, fp string) {
 				return fmt.Sprintf("call %d %s with reuse exposes %s; without reuse %s", i, o.str(c.docs), clip(got.exact), clip(want.exact)), "document"
 			}
 			if err == nil {
-				cur = pj
+				keepResult(pj)
 			}
 		case 2:
 			editCur(cur, o.Doc)
@@ -239,7 +255,7 @@ func (c *c15ctx) run(hist []c15Op) (what, fp string) {
 				return fmt.Sprintf("call %d %s into a reused destination gives err=%v %s; into nil %s", i, o.str(c.docs), err, clip(got.exact), clip(want.exact)), "deserialize"
 			}
 			if err == nil {
-				cur = out
+				keepResult(out)
 			}
 		}
 	}
@@ -279,7 +295,7 @@ func c15Body(w *W) {
 	c := newC15(w)
 	alpha := c15Alphabet(c)
 	depth := 3
-	w.Note(fmt.Sprintf("histories: every sequence of <= %d operations over %d ops {Parse x 9 documents (small/async, ok / stage-1 error / stage-2 error early and late, long string) x copy/no-copy, ParseND x 4 documents x 2, three in-place edits of the current result, Deserialize of 3 blobs into the current object} on one reused ParsedJson (and one reused Serializer); each reuse call is compared with the same call on fresh objects", depth, len(alpha)))
+	w.Note(fmt.Sprintf("histories: every sequence of <= %d operations over %d ops {Parse x 11 documents (small/async/dense-below-threshold, ok / stage-1 error / stage-2 error early and late, long string) x copy/no-copy, ParseND x 4 documents x 2, three in-place edits of the current result, Deserialize of 3 blobs into the current object} on one reused ParsedJson (and one reused Serializer), the reused object kept either as the pointer the previous call returned or by value (keep := *result; Parse(b, &keep): the parser state then survives failed calls); each reuse call is compared with the same call on fresh objects", depth, len(alpha)))
 	var hist []c15Op
 	var rec func(d int)
 	rec = func(d int) {
@@ -288,10 +304,14 @@ func c15Body(w *W) {
 			w.res.Validated++
 			enc, _ := json.Marshal(hist)
 			w.cur.Set("C15-history", "-", enc)
-			if what, fp := c.run(hist); what != "" {
+			for _, byValue := range []bool{false, true} {
+				what, fp := c.run(hist, byValue)
+				if what == "" {
+					continue
+				}
 				again := 0
 				for k := 0; k < 5; k++ {
-					if w2, _ := c.run(hist); w2 != "" {
+					if w2, _ := c.run(hist, byValue); w2 != "" {
 						again++
 					}
 				}
@@ -300,7 +320,12 @@ func c15Body(w *W) {
 				for _, o := range hist {
 					parts = append(parts, o.str(c.docs))
 				}
-				w.Violate(Violation{Harness: "C15-history", Fingerprint: "C15/" + fp, What: what, Case: enc, CaseText: strings.Join(parts, "; "), Config: "-"})
+				cfg := "reused object kept as the pointer the previous call returned"
+				if byValue {
+					cfg = "by-value"
+					what = "[reused object kept by value: keep := *result; Parse(b, &keep)] " + what
+				}
+				w.Violate(Violation{Harness: "C15-history", Fingerprint: "C15/" + fp, What: what, Case: enc, CaseText: strings.Join(parts, "; "), Config: cfg})
 				return
 			}
 			if d >= 2 {
@@ -349,7 +374,7 @@ func c15Replay(v *Violation) string {
 	if err := json.Unmarshal(v.Case, &hist); err != nil {
 		return "cannot decode history"
 	}
-	if what, _ := c.run(hist); what != "" {
+	if what, _ := c.run(hist, v.Config == "by-value"); what != "" {
 		return "FAIL " + what
 	}
 	return "OK"
